@@ -963,6 +963,45 @@ theorem replaceChild_maps (w : W) (l : String) (c : Child) :
       · simp
       · split <;> simp
 
+theorem relabelChild_maps (b : Bool) (w : W) (o : String) (n : LabelArg) :
+    (relabelChild b w o n).1.imap = w.imap ∧ (relabelChild b w o n).1.omap = w.omap := by
+  unfold relabelChild
+  split
+  · simp
+  · cases n with
+    | attr _ => simp
+    | nonStr => cases b <;> simp
+    | str s =>
+      simp only
+      split
+      · simp
+      · split
+        · simp
+        · split
+          · cases b <;> simp
+          · simp
+
+theorem pullChild_maps (b : Bool) (w : W) (l : String) (f : Bool) :
+    (pullChild b w l f).imap = w.imap ∧ (pullChild b w l f).omap = w.omap := by
+  unfold pullChild
+  split
+  · simp
+  · simp only
+    split <;> simp
+
+/-- putting the labels back node by node undoes the temporary labels -/
+theorem labelBack_labelTemp (tree : List String) (cs : List Child) : labelBack cs (labelTemp tree cs) = cs := by
+  induction cs with
+  | nil => rfl
+  | cons c rest ih =>
+    have hc : labelTemp tree (c :: rest) =
+        (if tree.contains c.label then { c with label := tmpLabel c } else c) :: labelTemp tree rest := rfl
+    rw [hc]
+    simp only [labelBack]
+    rw [ih]
+    congr 1
+    split <;> (cases c; rfl)
+
 /-- every operation of the larger alphabet keeps both stored maps well-formed -/
 theorem step_inv (w : W) (op : Op) (h : WInv w) (hwf : op.WF) : WInv (step w op).1 := by
   obtain ⟨hi, ho⟩ := h
@@ -994,6 +1033,8 @@ theorem step_inv (w : W) (op : Op) (h : WInv w) (hwf : op.WF) : WInv (step w op)
     · exact ⟨editStored_ok _ e hi, ho⟩
     · exact ⟨hi, editStored_ok _ e ho⟩
   | replace l c => have := replaceChild_maps w l c; simp only [step, WInv, this.1, this.2]; exact ⟨hi, ho⟩
+  | relabel o n => have := relabelChild_maps false w o n; simp only [step, WInv, this.1, this.2]; exact ⟨hi, ho⟩
+  | pull l f => have := pullChild_maps true w l f; simp only [step, WInv, this.1, this.2]; exact ⟨hi, ho⟩
 
 theorem run_inv (ops : List Op) (hwf : ∀ op ∈ ops, op.WF) : ∀ (w : W), WInv w → WInv (run w ops) := by
   induction ops with
